@@ -47,9 +47,9 @@ type cellShadow struct {
 
 type raceState struct {
 	on    bool
-	susp  int // >0: accesses are not recorded (lazy package initialisation)
+	susp  int             // >0: accesses are not recorded (lazy package initialisation)
 	cur   ssa.Instruction // the instruction being executed (for copy/append)
-	tid   int // running logical thread, -1 outside RunThreads
+	tid   int             // running logical thread, -1 outside RunThreads
 	vc    [maxThreads]vclock
 	sync  map[interface{}]*vclock
 	cells map[interface{}]*cellShadow
